@@ -155,6 +155,8 @@ struct HPca : Harness {
     for (Fit *f : {&A, &C, &B}) fill_outcome_from_sim(o, f->sr, plan_strategy);
     o.sched_sig = B.sr.sched_sig; o.nontrivial = B.sr.max_live >= 2;
     o.counters["nproc." + std::to_string(nproc)]++;
+    o.counters["scaling." + std::to_string(scaling)]++;
+    o.counters[n < pp ? "shape.wide" : n == pp ? "shape.square" : "shape.tall"]++;
     if (nproc > n) o.counters["probe.nproc_gt_rows"]++;
     if (nproc > pp) o.counters["probe.nproc_gt_cols"]++;
     h.u64(A.sr.hist_hash); h.u64(C.sr.hist_hash); h.u64(B.sr.hist_hash); hash_mat(h, B.out.scores); hash_mat(h, B.out.loadings); hash_vec(h, B.out.varexp);
